@@ -420,6 +420,9 @@ inductive Op where
   | registerResolver (typename fieldname : String) (r : ResolverD) (allowOverride same : Bool)
   | registerDefaultResolver (typename : String) (r : ResolverD) (allowOverride : Bool)
   | registerSubscription (typename fieldname : String) (r : ResolverD) (allowOverride same : Bool)
+  /-- plain assignment (documented): `schema.default_resolver = f` (level 0), `schema.types[T].default_resolver = f`
+      (1), `field.resolver = f` (2), `field.subscription_resolver = f` (3); `same`: the very object already there -/
+  | assignResolver (level : Nat) (typename fieldname : String) (r : ResolverD) (same : Bool)
   /-- `_replace_types_and_directives(types={name: new | None}, directives={name: new | None})`, entries in
       dict order; the flag says the new object IS the registered one (`new_type != original_type` is
       identity; for directives `new is directives.get(name)`). `healed`: the description after
@@ -568,6 +571,17 @@ def step (st : CacheState) : Op → CacheState × Outcome
       | some f =>
         if f.subscriptionResolver.isSome && !allow && !same then (st1, .valueError)
         else ({ st1 with schema := setFieldSubscription st.schema tn fn r, isValid := false }, .ok)
+  | .assignResolver level tn fn r same =>
+    -- `validate()` compares the callables it validated with the current ones (fix C13-HH1): assigning another
+    -- object makes the next `validate()` recompute; before the fix the cached verdict was kept
+    if same then (st, .ok) else
+    let s' : SchemaD :=
+      match level with
+      | 0 => { st.schema with defaultResolver := some r }
+      | 1 => setDefaultResolver st.schema tn r
+      | 2 => setFieldResolver st.schema tn fn r
+      | _ => setFieldSubscription st.schema tn fn r
+    ({ st with schema := s', isValid := st.isValid && !cfgCacheTracksAssignments }, .ok)
   | .replaceTypes entries dirEntries healed =>
     replaceStep replaceAccumulates replaceAtomic replaceDirectivesBust st entries dirEntries healed
 
